@@ -94,6 +94,10 @@ claim("C15", "constant/edge tables on the tag dispatch and builders, dominance a
       "absent values dropped; one-of option = a resolved Or dependency with the discriminator set to its id; matching id separators) and group-node identity (C15.R1-R3), plus tag->dependency kind and walker agreement (shared). "
       "Presence/absence as a function of source outcomes and event order is not decided.", NOTE)
 
+claim("C16", "effect classification of every map-ordered loop (header phis, outer stores, in-loop returns) by data dependence on the current element; who-may-call rule for ambient nondeterminism",
+      "Decides that every loop over a Go map (or reflect MapKeys()) in the parse/prepare paths has only keyed or commutative effects, or is under a len==1 guard, or is tabled with a reason (C16.R1), and that these paths use no clock, "
+      "random numbers, environment or goroutines outside the generated-identifier function (R2). Invariance under renaming and equality of two preparations are not decided.", NOTE)
+
 ALL = ["C%02d" % i for i in range(1, 21)]
 for pid in ALL:
     if pid not in P:
